@@ -275,11 +275,14 @@ fn eval(stream: &[Sym], mode: Mode, posn: Pos, scratch: &Scratch) -> Vec<Viol> {
 }
 
 fn eval_cohort(n: usize, p: usize, scratch: &Scratch) -> Option<Viol> {
+    eval_cohort_records(n, p, 8, scratch)
+}
+
+fn eval_cohort_records(n: usize, p: usize, records: usize, scratch: &Scratch) -> Option<Viol> {
     let mut cs = crate::gen::CallSet::new(n);
-    let records = 8usize;
     let mut expect_skipped = 0usize;
     for r in 0..records {
-        let n_missing = [0usize, 3, 0, 10, 1, 0, 6, 0][r];
+        let n_missing = [0usize, 3, 0, 10, 1, 0, 6, 0][r % 8];
         let gts: Vec<String> = (0..n)
             .map(|j| if j < n_missing { "./.".to_string() } else { ["0/0", "0/1", "1/1", "1|0"][(j * (r + 1) + r) % 4].to_string() })
             .collect();
@@ -314,9 +317,9 @@ fn eval_cohort(n: usize, p: usize, scratch: &Scratch) -> Option<Viol> {
     })();
     verdict.err().map(|e| {
         (
-            format!("C10|cli|cohort-mass-not-conserved|n{}", if n > 85 { ">85" } else { "<=85" }),
-            format!("{n} samples, 8 records, create -p {p}: {e}"),
-            J::obj([("kind", J::s("c10-cohort")), ("samples", J::u(n)), ("individuals", J::u(p))]),
+            format!("C10|cli|cohort-mass-not-conserved|n{}{}", if n > 85 { ">85" } else { "<=85" }, if records > 8 { "|long" } else { "" }),
+            format!("{n} samples, {records} records, create -p {p}: {e}"),
+            J::obj([("kind", J::s("c10-cohort")), ("samples", J::u(n)), ("individuals", J::u(p)), ("records", J::u(records))]),
         )
     })
 }
@@ -482,6 +485,25 @@ pub fn run(tier: Tier) -> i32 {
             extra: vec![],
         });
     }
+    // long projecting cohorts: every record is really projected (a hypergeometric row that sums to one
+    // only up to rounding), so whatever accumulates over a stream accumulates here
+    {
+        let n_long = tier.pick(70_000usize, 300_000usize);
+        let cj: Vec<(usize, usize)> = vec![(20, 10), (20, 7), (34, 16), (60, 20)];
+        let res = par_map(cj.len(), |i| eval_cohort_records(cj[i].0, cj[i].1, n_long, &scratch));
+        for v in res.into_iter().flatten() {
+            rep.violation(v.0, v.1, v.2);
+        }
+        rep.transitions += (cj.len() * n_long) as u64;
+        rep.part(Part {
+            name: "cli: long projecting cohorts".into(),
+            evaluations: cj.len() as u64,
+            nontrivial: cj.len() as u64,
+            note: format!("{n_long} records of one population of 20 / 34 / 60 samples with 0..10 missing samples per record, -p in {{10, 7, 16, 20}}: success, finite non-negative entries, mass + skipped = records (relative 1e-9), skipped exactly the records with fewer called samples than the target"),
+            exhaustive: true,
+            extra: vec![("records".into(), J::u(n_long))],
+        });
+    }
     rep.sample(J::obj([
         ("stream", J::s("CMjP")),
         ("mode", J::s("Project")),
@@ -519,7 +541,8 @@ pub fn replay(case: &J) -> Option<Vec<String>> {
     }
     if case.get("kind").and_then(|k| k.as_str()) == Some("c10-cohort") {
         let scratch = Scratch::new("c10r");
-        return Some(eval_cohort(case.get("samples")?.as_i64()? as usize, case.get("individuals")?.as_i64()? as usize, &scratch).into_iter().map(|(k, w, _)| format!("{k} :: {w}")).collect());
+        let records = case.get("records").and_then(|r| r.as_i64()).unwrap_or(8) as usize;
+        return Some(eval_cohort_records(case.get("samples")?.as_i64()? as usize, case.get("individuals")?.as_i64()? as usize, records, &scratch).into_iter().map(|(k, w, _)| format!("{k} :: {w}")).collect());
     }
     let stream = parse_stream(case.get("stream")?.as_str()?)?;
     let mode = match case.get("mode")?.as_str()? {
